@@ -99,7 +99,9 @@ def prefilter(ops, rounds=12):
     ops = list(ops)
     for _ in range(rounds):
         ml = model_lines(ops)
-        bad = [i for i, l in enumerate(ml) if l == "bad-op" or "would-block" in l.split(" SPECDIFF")[0] or "out-of-fuel" in l]
+        # also an access the spec itself calls a fault (offset not below the reported size): out of contract
+        bad = [i for i, l in enumerate(ml) if l == "bad-op" or "would-block" in l.split(" SPECDIFF")[0] or "out-of-fuel" in l
+               or (l.endswith("=> fault") and " SPECDIFF" not in l)]
         if not bad:
             return ops
         drop = set(bad)
@@ -233,6 +235,37 @@ class Runner:
 
     def enough(self):
         return self.unsigned >= 3
+
+    def run_model_only(self, cases, batch=25, parallel=4):
+        """correspondence only: histories outside the property's precondition (concurrent CREATE-mode
+        opens), where the spec may differ from model and code alike; implementation == model is what is checked"""
+        cases = [list(c) for c in cases]
+        groups = list(diffrun.batches(cases, batch))
+
+        def cmp_group(g):
+            joined = []
+            for c in g:
+                joined += c + ["reset"]
+            text = "".join(o + "\n" for o in joined)
+            crc, cout, cerr = self.fam.run_c(text)
+            mrc, mout, merr = self.fam.run_m(text)
+            cl = cout.splitlines()
+            ml = [diffrun.split_model_line(l)[0] for l in mout.splitlines()]
+            if crc != 0 or mrc != 0 or cl != ml:
+                i = pv.first_diff(cl, ml)
+                return {"kind": "model", "at": i or 0, "detail": "implementation %r, model %r (rc %s/%s)" % (
+                    cl[i] if i is not None and i < len(cl) else "<end>", ml[i] if i is not None and i < len(ml) else "<end>", crc, mrc), "ops": joined}
+            return None
+
+        with ThreadPoolExecutor(parallel) as ex:
+            verdicts = list(ex.map(cmp_group, groups))
+        for g, v in zip(groups, verdicts):
+            for c in g:
+                self.chk.count("\n".join(c), nontrivial=len(c) > 1)
+            if v is None:
+                self.chk.cov["traces_validated_against_impl"] += len(g)
+            elif self.corr is None:
+                self.corr = (v["ops"][: v["at"] + 1], v)
 
     def search(self, cases):
         """DESIGN §2.4: the proof or the correspondence no longer speaks about this code: judge the
